@@ -113,6 +113,10 @@ func (server *SugarDB) handleCommand(ctx context.Context, message []byte, conn *
 		ctx = context.WithValue(ctx, "ConnectionName", server.connInfo.embedded.Name)
 		ctx = context.WithValue(ctx, "Protocol", server.connInfo.embedded.Protocol)
 		ctx = context.WithValue(ctx, "Database", server.connInfo.embedded.Database)
+	} else if replay {
+		// The command is replayed from the append-only log: the caller has put the protocol and the
+		// database the command was logged under into the context, and there is no connection.
+		ctx = context.WithValue(ctx, "ConnectionName", "")
 	} else {
 		// The call is triggered by a TCP connection.
 		// Add TCP connection info to the context of the request.
